@@ -406,9 +406,19 @@ def snapshot(solver, rec, msg=None):
         term_now=_term_now(solver), exitreq=bool(solver._EARLYEXIT), nsm=len(solver._stepmon),
         maxiter=_lim(solver._maxiter), maxfun=_lim(solver._maxfun), live=bool(solver._live),
         synced=(solver._energy_history is None),
+        # the trial solution(s) the last iteration left behind (read by terminations such as SolutionImprovement): state a snapshot has to carry
+        trial=_trial(solver),
         # the monitors' parallel lists stay parallel (one id / info slot per record)
         mon_shape=[len(getattr(solver._stepmon, "_x", ())), len(getattr(solver._stepmon, "_y", ())), len(getattr(solver._stepmon, "_id", ())),
                    len(getattr(em, "_x", ())), len(getattr(em, "_y", ())), len(getattr(em, "_id", ()))])
+
+
+def _trial(solver):
+    try:
+        t = np.asarray(solver.trialSolution, dtype=float)
+        return [float(v) for v in t.ravel()] + [float(d) for d in t.shape]
+    except Exception:
+        return None
 
 
 def _term_now(solver):
@@ -452,6 +462,8 @@ def make_term(spec):
         return T.Or(make_term(spec["a"]), make_term(spec["b"]))
     if k == "and":
         return T.And(make_term(spec["a"]), make_term(spec["b"]))
+    if k == "solimp":            # (C06 only, outside the machine model) a condition on the trial solution(s) left behind by the last iteration
+        return T.SolutionImprovement(spec["tol"])
     if k == "or_collapse":       # (C06 only, outside the machine model) a condition that keeps a mask and drives Collapse
         return T.Or(make_term(spec["a"]), T.CollapseAt(None, spec["tol"], spec["g"]))
     raise ValueError(k)
@@ -472,6 +484,9 @@ def apply_op(solver, rec, op, k, case_tag):
     res, msg = {}, None
     tag = solver._verif_tag
     st = rec.state
+    if st.get("pending_cons") is not None and o != "Step":
+        solver.SetConstraints(st.pop("pending_cons")[0])       # no Step follows directly: an ordinary SetConstraints call after all
+        st.pop("pending_prev", None)
     if o == "SetObjective":
         st["cost_k"] = k
         solver.SetObjective(CostFn(op["cost"], k, tag))
@@ -482,6 +497,7 @@ def apply_op(solver, rec, op, k, case_tag):
         ident = op["cons"]["kind"] == "ident" and not op["cons"].get("inplace")
         if op.get("defer"):
             st["pending_cons"] = (None if ident else ConsFn(op["cons"], k, case_tag),)    # handed to the next Step as a keyword
+            st["pending_prev"] = (st.get("inplace"), st.get("cons_k"), st.get("eff_k"))
         else:
             solver.SetConstraints(None if ident else ConsFn(op["cons"], k, case_tag))
         st["inplace"] = bool(op["cons"].get("inplace"))
@@ -525,9 +541,16 @@ def apply_op(solver, rec, op, k, case_tag):
     elif o == "Step":
         kw = dict(callback=CbFn(tag)) if op.get("cb", False) else {}
         kw.update(_de_kwds(op))
-        if st.get("pending_cons") is not None:
-            kw["constraints"] = st.pop("pending_cons")[0]
+        pend = st.pop("pending_cons", None)
+        if pend is not None:
+            kw["constraints"] = pend[0]
         msg = solver.Step(**kw)
+        if pend is not None:
+            prev = st.pop("pending_prev", (None, None, None))
+            if pend[0] is not None and solver._constraints is not pend[0]:
+                # the Step refused to start (the solver had stopped): its keywords were never read, the constraints are not installed
+                st["inplace"], st["cons_k"], st["eff_k"] = prev
+                res["kw_dropped"] = True
         res["inputs"] = [step_inputs(solver, rec)]
     elif o == "Solve":
         rec.solve_inputs = []
@@ -658,7 +681,7 @@ def modelled(case):
                         return False
         if op["op"] == "SetTermination":
             term = True
-            if op["term"].get("kind") == "or_collapse":
+            if op["term"].get("kind") == "or_collapse" or '"solimp"' in json.dumps(op["term"]):
                 return False
         if op["op"] in ("Step", "Solve") and not term:
             return False        # the solvers' default termination conditions are not in the machine model (generated scripts always set one)
@@ -695,6 +718,9 @@ def script_coq(case, out):
         elif o == "SetPenalty":
             ops.append("@OSetPenalty NumF _ (lookup_e %s)" % tab_pen(k) if op["pen"]["kind"] != "none" else "@OSetPenalty NumF _ (fun _ => 0%float)")
         elif o == "SetConstraints":
+            if op.get("defer") and k + 1 < len(out["opres"]) and out["opres"][k + 1].get("kw_dropped"):
+                ops.append("@OSameEvalMonitor NumF _")       # handed to a Step that refused to start: never installed (a no-op of the machine)
+                continue
             ident = op["cons"]["kind"] == "ident" and not op["cons"].get("inplace")
             user_cons = "(fun x => x)" if ident else "(lookup_v %s)" % tab_cons(k)
             # under tight / clip ranges the function applied wherever "the constraints" are is the recorded composite of this configuration
